@@ -107,4 +107,33 @@ def isIpv6Address (input : Bytes) : Bool :=
 def processBaseUrlString (input : Bytes) (typeIsPattern : Bool) : Bytes :=
   if typeIsPattern then escapePatternString input else input
 
+/-! ### "process … for init" (URL Pattern Standard §3.1): `typeIsPattern` = "type is pattern" -/
+
+def processProtocolForInit (idna : Idna) (value : Bytes) (typeIsPattern : Bool) : Option Bytes :=
+  let stripped := if value.getLast? == some 0x3A then value.dropLast else value
+  if typeIsPattern then some stripped else canonProtocol idna stripped
+
+def processUsernameForInit (value : Bytes) (typeIsPattern : Bool) : Bytes := if typeIsPattern then value else canonUsername value
+def processPasswordForInit (value : Bytes) (typeIsPattern : Bool) : Bytes := if typeIsPattern then value else canonPassword value
+
+def processHostnameForInit (idna : Idna) (value : Bytes) (typeIsPattern : Bool) : Option Bytes :=
+  if typeIsPattern then some value else canonHostname idna value
+
+/-- the protocol value as "canonicalize a port" uses it: the dummy URL's scheme, when one is given -/
+def processPortForInit (port protocol : Bytes) (typeIsPattern : Bool) : Option Bytes :=
+  if typeIsPattern then some port else canonPort port (if protocol.isEmpty then none else some protocol)
+
+def processPathnameForInit (value protocol : Bytes) (typeIsPattern : Bool) : Option Bytes :=
+  if typeIsPattern then some value
+  else if protocol.isEmpty || isSpecialScheme protocol then canonPathname value
+  else some (canonOpaquePathname value)
+
+def processSearchForInit (value : Bytes) (typeIsPattern : Bool) : Bytes :=
+  let stripped := match value with | 0x3F :: r => r | _ => value
+  if typeIsPattern then stripped else canonSearch stripped
+
+def processHashForInit (value : Bytes) (typeIsPattern : Bool) : Bytes :=
+  let stripped := match value with | 0x23 :: r => r | _ => value
+  if typeIsPattern then stripped else canonHash stripped
+
 end AdaVerif.Spec.Pattern
